@@ -1425,10 +1425,47 @@ namespace bloch::runtime {
                     markObject(obj);
             }
         }
-        // Sweep unmarked non-tracked objects
+        // An unreachable object that owns qubits - through a field of its own class or of a base
+        // class - is left alone: reclaiming it here would release (or silently drop) its qubits
+        // at a moment that depends on when the collector happened to run. The same holds for an
+        // unreachable object that leads to such an object, because wiping its fields would drop
+        // the last reference to the owner.
+        std::unordered_set<const Object*> pinned;
+        for (auto& obj : objects) {
+            if (obj->marked || !obj->cls)
+                continue;
+            bool owns = false;
+            for (const RuntimeClass* c = obj->cls; c && !owns; c = c->base) owns = c->hasTrackedFields;
+            for (const auto& f : obj->fields)
+                if (f.type == Value::Type::Qubit || f.type == Value::Type::QubitArray)
+                    owns = true;
+            if (owns)
+                pinned.insert(obj.get());
+        }
+        for (bool changed = !pinned.empty(); changed;) {
+            changed = false;
+            for (auto& obj : objects) {
+                if (obj->marked || pinned.count(obj.get()))
+                    continue;
+                bool leads = false;
+                for (const auto& f : obj->fields) {
+                    if (f.type == Value::Type::Object && f.objectValue &&
+                        pinned.count(f.objectValue.get()))
+                        leads = true;
+                    for (const auto& e : f.objectArray)
+                        if (e && pinned.count(e.get()))
+                            leads = true;
+                }
+                if (leads) {
+                    pinned.insert(obj.get());
+                    changed = true;
+                }
+            }
+        }
+        // Sweep the remaining unmarked objects
         std::vector<std::shared_ptr<Object>> unreachable;
         for (auto& obj : objects) {
-            if (!obj->marked && obj->cls && !obj->cls->hasTrackedFields) {
+            if (!obj->marked && obj->cls && !pinned.count(obj.get())) {
                 obj->skipDestructor = true;
                 unreachable.push_back(obj);
             }
